@@ -151,4 +151,38 @@ theorem run_snoc {len : Int} {ops : List Op} {op : Op} {r' : Rec} (h : run len (
     | error e => rw [hs] at h; cases h
     | ok r1 => rw [hs] at h; simpa [pure, Except.pure] using h
 
+/-! ### position of a gene in a collection's list -/
+
+theorem indexIn_some {x : Nat} : ∀ {l : List Nat} {i : Nat}, indexIn x l = some i →
+    l[i]? = some x ∧ ∀ j < i, l[j]? ≠ some x
+  | [], _, h => by simp [indexIn] at h
+  | y :: ys, i, h => by
+    simp only [indexIn] at h
+    by_cases hy : (y == x) = true
+    · simp only [hy, if_true, Option.some.injEq] at h
+      subst h
+      exact ⟨by simpa using hy, fun j hj => by omega⟩
+    · simp only [hy, if_false, Bool.false_eq_true] at h
+      cases hr : indexIn x ys with
+      | none => rw [hr] at h; simp at h
+      | some k =>
+        rw [hr] at h; simp at h; subst h
+        obtain ⟨h1, h2⟩ := indexIn_some hr
+        refine ⟨by simpa using h1, ?_⟩
+        intro j hj
+        cases j with
+        | zero => simpa using hy
+        | succ j => simpa using h2 j (by omega)
+
+theorem indexIn_none {x : Nat} : ∀ {l : List Nat}, indexIn x l = none ↔ x ∉ l
+  | [] => by simp [indexIn]
+  | y :: ys => by
+    simp only [indexIn]
+    by_cases hy : (y == x) = true
+    · have : y = x := by simpa using hy
+      simp [hy, this]
+    · have hne : ¬ x = y := by
+        intro e; apply hy; simp [e]
+      simp only [hy, if_false, Bool.false_eq_true, Option.map_eq_none_iff, indexIn_none (l := ys), List.mem_cons, hne, false_or]
+
 end ASV.Lookup
